@@ -272,6 +272,15 @@ def run(ctx):
                         ctx.raised(exc, 'convert-raised:%s->%s' % (a, b), 'convert_flux raised for supported units: %r' % (exc,), {'from': a, 'to': b})
                         continue
                     ctx.event('roundtrip:ABA')
+                    # ... the identity as the caller sees it: the quantity handed over is still the quantity it was (same unit, same numbers)
+                    try:
+                        untouched = bool(fa.unit == UNITS[a][0]) and O.close(np.asarray(fa.value, float), f, 1e-15)
+                    except Exception:
+                        untouched = False
+                    if not untouched:
+                        ctx.violation('not-invertible:%s->%s:callers-quantity' % (a, b), 'after A->B->A the quantity the caller started from is no longer what it was (A->B->A is not the identity on it)',
+                                      {'from': a, 'to': b, 'unit_now': str(getattr(fa, 'unit', None))})
+                        fa = f * UNITS[a][0]
                     if not O.close(back.to(UNITS[a][0]).value, f, 1e-12):
                         ctx.violation('not-invertible:%s->%s' % (a, b), 'A->B->A is not the identity', {'from': a, 'to': b})
                     c = names[int(rng.integers(len(names)))]
